@@ -406,6 +406,10 @@ func (s *ServerSession) writeAcknowledgementIfNeeded(stream *Stream) error {
 }
 
 func (s *ServerSession) doConnect(tid int, stream *Stream) error {
+	// connect只能发生在publish或者play之前：之后session已经交给上层，其他协程会读取appName等字段
+	if s.sessionStat.BaseType() != base.SessionBaseTypePubSubStr {
+		return nazaerrors.Wrap(base.ErrRtmpUnexpectedMsg)
+	}
 	val, err := stream.msg.readObjectWithType()
 	if err != nil {
 		return err
